@@ -58,7 +58,8 @@ def rand_op(rng, reads=True):
     r = rng.random()
     if r < 0.45 or not reads:
         e = rng.choice(["pass", "pass", "pass", "block", "complete", "error", "rt"])
-        amt = rng.choice([1, 2, 3, 7, 100]) if e != "rt" else rng.choice([1, 30, 59999, 60000, 70000])
+        # signed amounts for the plain counters (the API takes int64: decrements, roll-backs); rt stays >= 0
+        amt = rng.choice([1, 2, 3, 7, 100, 1, 2, -1, -2, -5]) if e != "rt" else rng.choice([1, 30, 59999, 60000, 70000])
         return f"add {e} {amt}"
     if r < 0.55:
         return f"conc {rng.choice([0, 1, 3, 9])}"
@@ -129,7 +130,7 @@ def gen_seq_walk(rng, cid):
             clock += far_jump(rng, L, I)
         r = rng.random()
         if r < 0.5:
-            prog = f"add pass {rng.choice([1, 2, 3, 4, 7])}"
+            prog = f"add pass {rng.choice([1, 2, 3, 4, 7, -1, -3, -5])}"
         elif r < 0.6:
             prog = f"add pass {rng.choice([1, 3])} ; count pass"
         elif r < 0.8:
@@ -372,6 +373,10 @@ HUNT += [
     # concurrent readers whose windows differ in shape (clock readings several buckets apart)
     ("P-readers-3-buckets-apart", FILL4 + ["thread 0 5600 count pass", "thread 1 7100 count pass"], ["thread 0 7100 count pass", "sched"]),
     ("P-readers-2-buckets-apart", FILL3 + ["thread 0 4100 count pass", "thread 1 5100 count pass"], ["thread 0 5100 count pass", "sched"]),
+    ("P-negative-then-positive", ["la.new 2 1000 1000", "thread 0 1000 add pass -5", "thread 1 1001 add pass 3"],
+     ["thread 0 1002 count pass ; viewsum pass", "sched"]),
+    ("P-negative-vs-rolling-positive", PRE500 + ["thread 0 2000 add pass -7", "thread 1 2001 add pass 2 ; add block -1"],
+     ["thread 0 2002 count pass ; count block", "sched"]),
     ("P-values-first-in-new-bucket", PRE500 + ["thread 0 2100 values pass", "thread 1 2100 add pass 1"], ["thread 0 2400 values pass ; count pass", "sched"]),
     ("P-reader-vs-view-apart", FILL4 + ["thread 0 5600 count pass ; count pass", "thread 1 6600 viewsum pass"], ["thread 0 6600 count pass", "sched"]),
 ]
